@@ -377,7 +377,13 @@ def evaluate(scs, results, model, spec, variant):
             sc, r = v["sc"], v["obs"]
             if v["problem"]:
                 continue
-            if sc["kind"] == "spawn":
+            if sc["kind"] == "spawn" or v.get("skipped"):
+                continue
+            if sc.get("enter_deadline") is not None:
+                # cancelled WHILE the context is being entered: whether the child had been spawned, and whether the library ever
+                # held its Process object, depends on where in open_process the cancellation lands (2 .. 90 ms, machine load):
+                # the model of the exit protocol does not apply; these scenarios are judged by the specification alone
+                # (nothing left running, no descriptor left open, exit within the bound)
                 continue
             m = mres[sc["idx"]]
             impl = {"signals": r["signals"], "reaped": r["returncode"] is not None and r["state"] == "gone",
